@@ -1,11 +1,35 @@
-"""C19 (known): `advi -t tree --poisson` without --coalescent/--birth-death: create_time_tree_prior returns an unassigned local.
+"""C19 (known): the --poisson path of `torchtree-cli advi` is unfinished.
+  (a) `advi -t TREE --poisson` without a tree prior: create_time_tree_prior returns an unassigned local (UnboundLocalError, C19.E);
+  (b) `advi -t TREE --poisson --clock strict --coalescent constant`: the logger lists 'prior', which the poisson joint never defines (C19.R).
 Run: PYTHONPATH=/repo /venv/bin/python findings/c19_known_poisson_without_tree_prior.py   (exit 1 = defect present)"""
-import io, sys, contextlib
+import io, sys, json, contextlib, importlib
 from torchtree.cli.cli import main
+from torchtree.core.utils import process_objects, package_contents, remove_comments, expand_plates, JSONParseError
+for module in package_contents('torchtree'):
+    importlib.import_module(module)
+bad = 0
 sys.argv = ['torchtree-cli', 'advi', '-t', '/repo/data/fluA.tree', '--poisson']
 try:
     with contextlib.redirect_stdout(io.StringIO()):
         main()
+    print('(a) OK')
 except UnboundLocalError as e:
-    print('DEFECT: CLI crashed:', e); sys.exit(1)
-print('OK'); sys.exit(0)
+    print('(a) DEFECT: CLI crashed:', e); bad += 1
+sys.argv = ['torchtree-cli', 'advi', '-t', '/repo/data/fluA.tree', '--poisson', '--clock', 'strict', '--coalescent', 'constant']
+buf = io.StringIO()
+with contextlib.redirect_stdout(buf):
+    main()
+data = json.loads(buf.getvalue())
+remove_comments(data); expand_plates(data)
+dic = {}
+try:
+    with contextlib.redirect_stdout(io.StringIO()):
+        for e in data:
+            process_objects(e, dic)
+    print('(b) OK: loaded', len(dic), 'objects')
+except JSONParseError as e:
+    root = e
+    while root.__context__ is not None:
+        root = root.__context__
+    print('(b) DEFECT: emitted file rejected:', root); bad += 1
+sys.exit(1 if bad else 0)
